@@ -121,6 +121,76 @@ func verifC15Order(e int, msgLen int) {
 func VerifHarness_C15_Order_2() { verifC15Order(2, 2) }
 func VerifHarness_C15_Order_3() { verifC15Order(3, 2) }
 
+// C15-O2c: the timestamp column. Instants come from a concrete pool (the
+// epoch itself, its neighbours, second boundaries, a present-day instant with
+// and without a fraction, the largest instant), any entry may take any pool
+// member (ties included); messages are symbolic. Every line carries the
+// RFC3339Nano spelling of ITS OWN instant.
+var verifStampPool = []uint64{0, 1, 999999999, 1000000000, 1700000000000000000, 1700000000123456789, 1700000000123456790, 9223372036854775807}
+
+func verifC15Stamp(e int, msgLen int) {
+	showName := vsymBool("container")
+	opts := renderOptions{timestamp: true, container: showName, color: false}
+	type ent struct {
+		t    uint64
+		line string
+	}
+	var ents []ent
+	var s0, s1 []lokiapi.LogEntry
+	for i := 0; i < e; i++ {
+		t := verifStampPool[vsymChoice("Tpool", len(verifStampPool))]
+		msg := vsymString("msg", vsymChoice("msglen", msgLen+1))
+		inFirst := vsymBool("inFirstStream")
+		name := "b"
+		if inFirst {
+			name = "a"
+			s0 = append(s0, lokiapi.LogEntry{T: t, V: msg})
+		} else {
+			s1 = append(s1, lokiapi.LogEntry{T: t, V: msg})
+		}
+		line := time.Unix(0, int64(t)).Format(time.RFC3339Nano) + " " + verifTrim(msg) + "\n"
+		if showName {
+			line = name + " " + line
+		}
+		ents = append(ents, ent{t, line})
+	}
+	var buf bytes.Buffer
+	err := renderResult(&buf, opts, verifData([]lokiapi.Stream{verifStream("a", s0...), verifStream("b", s1...)}))
+	vsymAssert(err == nil, "rendering succeeds")
+	out := vsymStr(buf.Bytes())
+	idx := make([]int, e)
+	ok := false
+	var rec func(k int, used uint)
+	rec = func(k int, used uint) {
+		if k == e {
+			sorted := true
+			s := ""
+			for j := 0; j < e; j++ {
+				if j > 0 {
+					sorted = sorted && ents[idx[j-1]].t <= ents[idx[j]].t
+				}
+				s += ents[idx[j]].line
+			}
+			if sorted {
+				ok = vsymOr(ok, s == out)
+			}
+			return
+		}
+		for i := 0; i < e; i++ {
+			if used&(1<<uint(i)) == 0 {
+				idx[k] = i
+				rec(k+1, used|1<<uint(i))
+			}
+		}
+	}
+	rec(0, 0)
+	vsymAssert(ok, "output = one line per entry ([name ' '] + RFC3339Nano instant of that entry + ' ' + message without trailing CR/LF + LF), in non-decreasing timestamp order")
+	vsymReach("C15_stamp")
+}
+
+func VerifHarness_C15_Stamp_2() { verifC15Stamp(2, 1) }
+func VerifHarness_C15_Stamp_3() { verifC15Stamp(3, 1) }
+
 // C15-O3: colour on: each name is wrapped in one palette colour, used
 // consistently per container; timestamp column after the container column.
 func verifC15Colour(maxContainers int) {
